@@ -7,7 +7,7 @@
    (packet.go:503-516) recurses on last.LayerPayload() until that payload is empty; nothing
    in the framework forces the payload to shrink.  The hypothesis needed is therefore
      progress fam : a decoder that continues (calls NextDecoder) has added a layer whose
-                    payload is strictly shorter than the data it was given
+                    payload is strictly shorter than the data it was given (or empty)
    and the bound is recursion depth <= |data| + 1 (fuel S (length data)). *)
 From GP Require Import Base PacketCore PacketScript PacketCoreProofs PacketScriptProofs PacketCoreThms.
 Open Scope Z_scope.
